@@ -1,6 +1,7 @@
 """C10 - spanning trees and forests span, are acyclic, and respect exclusions.
 
 Shape: reference-model differential monitor (reference adjacency from the raw lists, BFS distances, Kruskal weight)."""
+import math
 import random
 
 import numpy as np
@@ -28,6 +29,8 @@ def cases(seed, tier):
     n = 360 if tier == "quick" else 80000
     out = [{"gen": ["polyline", "surface", "surface", "volume"][i % 4], "seed": rng.randrange(2 ** 31)} for i in range(n)]
     out += [{"gen": "hexes", "seed": rng.randrange(2 ** 31)} for i in range(n // 12)]
+    # trees whose depth is in the thousands (path graphs, one-triangle-wide strips): both traversal orders must still visit everything
+    out += [{"gen": "deep", "seed": rng.randrange(2 ** 31), "n": [1500, 3000, 5000][i % 3], "what": ["polyline", "strip"][i % 2]} for i in range(4 if tier == "quick" else 40)]
     return out
 
 
@@ -155,6 +158,43 @@ def _bfs_depth_check(ctx, kind, tree, adj, root, reached):
 HEX_FACES = [(0, 1, 2, 3), (4, 5, 6, 7), (0, 3, 7, 4), (0, 1, 5, 4), (1, 2, 6, 5), (2, 3, 7, 6)]
 
 
+def _deep_case(desc, ctx):
+    import mouette as M
+    T = M.processing.trees
+    rng = random.Random(desc["seed"])
+    n = desc["n"]
+    ctx.cls("deep:%s:%d" % (desc["what"], n))
+    ctx.nontrivial(stable_hash(["deep", desc["what"], n, desc["seed"]]))
+    if desc["what"] == "polyline":
+        V = [[float(i), 0.1 * math.sin(i), 0.0] for i in range(n)]
+        E = [(i, i + 1) for i in range(n - 1)]
+        ok, m = ctx.call("build", build.polyline, V, E, monitor="tree")
+        adj = {v: set() for v in range(n)}
+        for a, b in E:
+            adj[a].add(b)
+            adj[b].add(a)
+        root = rng.choice([0, n - 1, rng.randrange(n)])
+        ok, tree = ctx.call("EdgeSpanningTree", lambda: T.EdgeSpanningTree(m, root)(), monitor="tree", abort=False)
+        if ok:
+            _check_tree(ctx, "vertex_tree", tree, n, adj, root)
+    else:
+        k = n // 2
+        V = [[float(i), 0.0, 0.0] for i in range(k + 1)] + [[float(i), 1.0, 0.0] for i in range(k + 1)]
+        F = []
+        for i in range(k):
+            F += [[i, i + 1, k + 1 + i], [i + 1, k + 2 + i, k + 1 + i]]
+        ok, m = ctx.call("build", build.surface, V, F, monitor="tree")
+        nF = len(F)
+        fadj = {f: set() for f in range(nF)}
+        for f in range(nF - 1):
+            fadj[f].add(f + 1)
+            fadj[f + 1].add(f)
+        root = rng.choice([0, nF - 1, rng.randrange(nF)])
+        ok, tree = ctx.call("FaceSpanningTree", lambda: T.FaceSpanningTree(m, root)(), monitor="tree", abort=False)
+        if ok:
+            _check_tree(ctx, "face_tree", tree, nF, fadj, root)
+
+
 def _hex_case(desc, ctx):
     """Cell trees / forests on hexahedral blocks (the statement speaks of cells, not of tetrahedra)."""
     import mouette as M
@@ -207,6 +247,8 @@ def run_case(desc, ctx):
     g = desc["gen"]
     if g == "hexes":
         return _hex_case(desc, ctx)
+    if g == "deep":
+        return _deep_case(desc, ctx)
     F = C = None
     if g == "polyline":
         V, E, cls = graphs.make(rng.randrange(2 ** 31))
